@@ -45,6 +45,42 @@ pub fn generators(tier: &str) -> Vec<StreamGen> {
         };
         v.push(super::stream::stream_gen(if ipfix { "ipfix-id-redefined-between-unknown-and-known-only-across-packets" } else { "v9-id-redefined-between-unknown-and-known-only-across-packets" }, 2 * 3 * 2 * 3 * 2, mk));
     }
+    // options templates whose SCOPE or option part names a field the library does not know, data in the same packet or
+    // in a later call: an options data record with such a field is not decoded data either
+    for ipfix in [false, true] {
+        let mk = move |i: u64| -> Option<Vec<Vec<u8>>> {
+            use crate::wire::*;
+            let d = digits(i, &[2, 4, 3, 3]);
+            let unk = fs(600, [1u16, 2, 4][d[2] as usize]);
+            let (scope_n, pos) = (1 + d[0] as usize, d[1] as usize);
+            // three fields, the unknown one at position `pos` (3 = none: the known-only control)
+            let mut f: Vec<FieldSpec> = if ipfix { vec![fs(10, 4), fs(34, 4), fs(36, 2)] } else { vec![fs(1, 4), fs(34, 4), fs(36, 2)] };
+            if pos < 3 {
+                if !ipfix && pos < scope_n {
+                    f[pos] = fs(9, unk.len); // a V9 scope type the scope table does not list
+                } else {
+                    f[pos] = unk;
+                }
+            }
+            let body: Vec<u8> = (0..2 * f.iter().map(|x| x.len as usize).sum::<usize>()).map(|j| fill(7, j)).collect();
+            let (t, dset) = if ipfix {
+                (ipfix_message(&IpfixMsg::new(vec![IpfixSet::OptTpl(vec![IpfixOptTpl { id: 300, scope_count: scope_n as u16, fields: f.clone() }], 0)])), ipfix_message(&IpfixMsg::new(vec![IpfixSet::Data(300, body.clone())])))
+            } else {
+                (v9_packet(&V9Pkt::new(vec![V9Set::OptTpl(vec![V9OptTpl { id: 300, scope: f[..scope_n].to_vec(), opts: f[scope_n..].to_vec() }], 0)])), v9_packet(&V9Pkt::new(vec![V9Set::Data(300, body.clone())])))
+            };
+            let both = if ipfix {
+                ipfix_message(&IpfixMsg::new(vec![IpfixSet::OptTpl(vec![IpfixOptTpl { id: 300, scope_count: scope_n as u16, fields: f.clone() }], 0), IpfixSet::Data(300, body.clone())]))
+            } else {
+                v9_packet(&V9Pkt::new(vec![V9Set::OptTpl(vec![V9OptTpl { id: 300, scope: f[..scope_n].to_vec(), opts: f[scope_n..].to_vec() }], 0), V9Set::Data(300, body.clone())]))
+            };
+            Some(match d[3] {
+                0 => vec![both],
+                1 => vec![t, dset],
+                _ => vec![[t, dset].concat()],
+            })
+        };
+        v.push(super::stream::stream_gen(if ipfix { "ipfix-options-template-with-unknown-field-in-scope-or-options" } else { "v9-options-template-with-unknown-field-in-scope-or-options" }, 2 * 4 * 3 * 3, mk));
+    }
     v
 }
 
